@@ -527,20 +527,28 @@ func runC03(c *Ctx) {
 				}
 				n++
 				T := g.b.Succs[1-g.nilSucc]
-				var nilEdges []core.Edge
-				for _, t := range tests {
-					if t.o == o {
-						nilEdges = append(nilEdges, core.Edge{B: t.b, Succ: t.nilSucc})
+				// edges that can be taken when this callback is set
+				feasible := core.FeasibleUnder(fn, func(cond ssa.Value) int {
+					bo, ok := cond.(*ssa.BinOp)
+					if !ok || bo.Op != token.EQL && bo.Op != token.NEQ {
+						return -1
 					}
-				}
-				isNilEdge := func(b *ssa.BasicBlock, i int) bool {
-					for _, e := range nilEdges {
-						if e.B == b && e.Succ == i {
-							return true
-						}
+					var other ssa.Value
+					if core.IsNilConst(bo.Y) {
+						other = bo.X
+					} else if core.IsNilConst(bo.X) {
+						other = bo.Y
+					} else {
+						return -1
 					}
-					return false
-				}
+					if cbField(other) != o {
+						return -1
+					}
+					if bo.Op == token.NEQ {
+						return 1
+					}
+					return 0
+				})
 				key := core.CallKey(fn, call)
 				bad := false
 				for _, h := range fn.Blocks {
@@ -552,7 +560,7 @@ func runC03(c *Ctx) {
 						continue // dispatch on the packet kind
 					}
 					for si, sc := range h.Succs {
-						if isNilEdge(h, si) || sc == T {
+						if !feasible(h, si) || sc == T {
 							continue
 						}
 						hits := core.ReachAvoiding(core.Point{B: sc, I: -1}, func(in ssa.Instruction) bool {
@@ -562,7 +570,7 @@ func runC03(c *Ctx) {
 							}
 							rv := core.ReturnErr(fn, ret)
 							return rv == nil || core.MayBeNilError(rv, 0)
-						}, func(in ssa.Instruction) bool { return in.Block() == T }, core.WithoutEdges(nilEdges))
+						}, func(in ssa.Instruction) bool { return in.Block() == T }, feasible)
 						if len(hits) > 0 {
 							bad = true
 							c.R.Bad(rule, key, cfg, p.Pos(ifi.Cond.Pos()), sprintf("after this test a success exit at %s is reachable without calling %s although it is set: the packet is swallowed", p.Pos(hits[0].At.Pos()), o))
